@@ -185,6 +185,30 @@ def r2_lists_after_prune(ctx, rep):
             rep.ob("Project.correlate: entity lists gathered after prune", ok,
                    "the CONTAINERS gather loop follows the prune loop" if ok else
                    "project-level entity lists are gathered before pruning", py.nloc(n))
+    # every other registration into a project list inside correlate (directly or through a local helper) comes after prune
+    helpers = {n.name: n for n in ast.walk(fn) if isinstance(n, ast.FunctionDef) and n is not fn}
+    def in_helper(node):
+        for h in helpers.values():
+            if any(x is node for x in ast.walk(h)):
+                return h
+        return None
+    for c in py.walk_calls(fn):
+        m = re.fullmatch(r"self\.(\w+)\.(append|extend)", call_name(c))
+        if not m or m.group(1).startswith("ext"):
+            continue
+        lst = m.group(1)
+        h = in_helper(c)
+        if h is None:
+            lines = [c.lineno]
+        else:
+            lines = [k.lineno for k in py.walk_calls(fn) if call_name(k) == h.name and in_helper(k) is not h]
+            if not lines:
+                raise AnalysisError(f"Project.correlate: helper {h.name} is never called")
+        ok = min(lines) > prune_line
+        rep.ob(f"Project.correlate: self.{lst} filled after prune", ok,
+               f"registration at line(s) {lines} follows the prune loop (line {prune_line})" if ok else
+               f"self.{lst} is filled before prune(): entities that display/proc_internals hide still get pages and list entries",
+               py.nloc(c))
     # correlate before prune
     corr = [n.lineno for n in ast.walk(fn) if isinstance(n, ast.For)
             and any(call_name(c).endswith(".correlate") for c in py.walk_calls(n))]
